@@ -1878,7 +1878,12 @@ class Router:
         ------
         NotImplementedError : Version not implemented
         """
-        self.process_basic_header(packet)
+        try:
+            self.process_basic_header(packet)
+        except Exception as e:  # pylint: disable=broad-except
+            # A frame that cannot be decoded or processed is discarded; it must never
+            # raise into (and thereby stop) the link layer's receive loop.
+            print("GeoNetworking packet discarded: " + type(e).__name__ + ": " + str(e))
 
     def duplicate_address_detection(self, gn_addr: GNAddress) -> None:
         """
